@@ -8,6 +8,8 @@ import PegVerif.Proofs.LinkLemmas
 import PegVerif.Proofs.AlwaysLemmas
 import PegVerif.Model.Machine
 import PegVerif.Model.Sem
+import PegVerif.Model.SwitchSafe
+import PegVerif.Proofs.SwitchSafeDef
 /-
   `pegmodel emit`: one JSON request per line `{"id","tree":[…],"opts":"isn"-subset}` → one JSON
   line `{"id","rules":[{"nil":bool,"code":[…]}],"error"?}` with the IR the *model* generator
@@ -65,7 +67,13 @@ def emitOne (line : String) : String :=
             ("actions", Json.mkObj (L.actions.map (fun a => (a.1, Json.str a.2))))]
           -- the decidable hypotheses of C01_wellformed / C01_generated_parser on this grammar
           let hyps := Json.mkObj [("wfb", WFB L.G), ("grammarOK", GrammarOK L.G), ("linkedOK", LinkedOK L.G),
-            ("plain", L.G.rules.all (fun r => r.body.plain))]
+            ("plain", L.G.rules.all (fun r => r.body.plain))] |>.mergeObj
+            -- -switch: the translation-validation check of `C02_switch_validated` (Eval-level equivalence
+            -- of the optimiser's output with the original grammar)
+            (if o.switch then Json.mkObj [("swOK", swOK L.G G'), ("wfbSwitched", WFB G'),
+                ("grammarOKS", GrammarOKS G'), ("switchSafe", switchSafe L.G G'),
+                ("rewritten", G'.rules.any (fun r => r.body.hasNode (fun e => match e with | .ualt _ _ => true | _ => false)))]
+             else Json.mkObj [])
           pure (Json.mkObj [("id", id), ("rules", programJson P), ("nilCase", nilCase),
             ("unusedLabel", unusedLabel), ("header", hj), ("hyps", hyps),
             ("ruleNames", Json.arr (L.G.rules.map (fun r => Json.str r.name)).toArray)])
